@@ -1,9 +1,10 @@
-import SyneTune.Lemmas.TunerC12
+import SyneTune.Lemmas.TunerFail
 import SyneTune.Lemmas.TunerNotify
+import SyneTune.Lemmas.TunerWitness
 /-
 C13 (loop side) — trial failures are contained.
 Property theorems only; model `Model/Tuner.lean`, lemmas `Lemmas/TunerStruct.lean`
-(`SInv.failedNamed`), `Lemmas/TunerNotify.lean`, `Lemmas/TunerC12.lean`.
+(`SInv.failedNamed`), `Lemmas/TunerNotify.lean`, `Lemmas/TunerC12.lean`, `Lemmas/TunerFail.lean`.
 Scheduler-side parts (the schedulers keep working after `on_trial_error`) are separate.
 -/
 namespace SyneTune.C13Loop
@@ -66,72 +67,6 @@ theorem continues (s : LState) (a a' : Ans) (hp : s.pc = .evalStop) (hw : s.cfg.
   rw [h1, step_pc]
   simp [next]
 
-/-- firstFailed finds a failed trial whenever there is one -/
-theorem firstFailed_spec (l : List (Nat × St)) (hn : (keys l).Nodup) :
-    (∀ t, firstFailed l = some t → alookup t l = some .failed) ∧
-    ((∃ t, alookup t l = some .failed) → (firstFailed l).isSome = true) := by
-  induction l with
-  | nil => exact ⟨fun t h => by simp [firstFailed] at h, fun ⟨t, h⟩ => by simp [alookup] at h⟩
-  | cons x xs ih =>
-    obtain ⟨k, v⟩ := x
-    simp only [keys, List.map_cons, List.nodup_cons] at hn
-    obtain ⟨ih1, ih2⟩ := ih hn.2
-    constructor
-    · intro t h
-      simp only [firstFailed] at h
-      by_cases hv : v = .failed
-      · simp only [hv, if_true, Option.some.injEq] at h
-        subst h; simp [alookup, hv]
-      · simp only [hv, if_false] at h
-        have := ih1 t h
-        have hne : t ≠ k := by
-          intro hc; subst hc
-          exact hn.1 ((hasKey_iff_mem_keys _ _).mp (by unfold hasKey; rw [this]; rfl))
-        simp [alookup, hne, this]
-    · rintro ⟨t, h⟩
-      simp only [firstFailed]
-      by_cases hv : v = .failed
-      · simp [hv]
-      · simp only [hv, if_false]
-        apply ih2
-        by_cases hc : t = k
-        · subst hc; simp [alookup] at h; exact absurd h hv
-        · exact ⟨t, by simpa [alookup, hc] using h⟩
-
-/-- a positive count exhibits an entry -/
-theorem exists_of_numIn_pos (ts : TStatus) (p : St → Bool) (h : 0 < ts.numIn p) (hn : (keys ts.last).Nodup) :
-    ∃ t st, alookup t ts.last = some st ∧ p st = true := by
-  unfold TStatus.numIn at h
-  obtain ⟨kv, hkv⟩ := List.exists_mem_of_length_pos h
-  obtain ⟨h1, h2⟩ := List.mem_filter.mp hkv
-  exact ⟨kv.1, kv.2, alookup_of_mem hn h1, h2⟩
-
-
-/-- the keys of `last_trial_status_seen` are distinct (it is a dict) -/
-def LNInv (s : LState) : Prop := (keys s.status.last).Nodup
-
-theorem LNInv_next (s : LState) (a : Ans) (h : LNInv s) : LNInv (next s a) := by
-  unfold next
-  split
-  all_goals (try simp only [])
-  all_goals (repeat' split)
-  all_goals first
-    | exact h
-    | (show (keys (addRow s).status.last).Nodup; rw [addRow_status]; exact h)
-    | (show (keys (secondItem s _ _ _).status.last).Nodup; rw [secondItem_status]; exact h)
-    | (show (keys (afterUpdate s).status.last).Nodup
-       rw [show (afterUpdate s).status.last = aupdate s.status.last (aupdate s.sd s.done) from update_last _ _ _]
-       exact nodup_keys_aupdate _ _ h)
-    | (show (keys (scheduled s _).status.last).Nodup
-       have hl : ∀ u, (scheduled s u).status.last = aset u .inProgress s.status.last := by
-         intro u; unfold scheduled addRunning; split <;> exact update_last _ _ _
-       rw [hl]; exact nodup_keys_aset _ _ _ h)
-    | (show (keys (TStatus.markStopped s.status).last).Nodup; rw [markStopped_keys]; exact h)
-
-theorem LNInv_run (c : Cfg) (as : List Ans) : LNInv (run (init c) as) :=
-  run_inv (Inv := LNInv) (fun s a h => step_of_next (P := LNInv) (fun _ _ h => h) s a (LNInv_next s a h)) as (init c)
-    (by simp [LNInv, init, keys])
-
 /-- **Exceeding the limit ends the run with an error that names a failed trial.** Under contract
 B: when the `finally` block reaches `_handle_failure` with more than `max_failures` failed
 trials, the run goes on to show the log of a trial `t` whose entry in `done_trials_statuses` is
@@ -166,5 +101,31 @@ theorem abort_names_failed (c : Cfg) (as : List Ans) (hB : Along BOk (init c) as
     · rw [h1, hn]; rfl
     · rw [h1, hn]; simp [step, next, Pc.silent]
     · rw [h1, hn]; simp [step, next, Pc.silent]
+
+/-! ### concrete instances (the end-clash run of `Lemmas/TunerWitnessData.lean`) -/
+
+/-- `notified_failed`: trial 0 polled as failed → `on_trial_error(0)` -/
+example : (run (init Witness.clashCfg) (Witness.clashPrefix.take 28)).pc = .second ∧
+    (run (init Witness.clashCfg) (Witness.clashPrefix.take 28)).items = [(0, .failed)] ∧
+    pending (run (init Witness.clashCfg) Witness.clashPrefix) = .schedError 0 := by
+  decide +kernel
+
+/-- `continues`: one failure with `max_failures = 1`: the next iteration starts -/
+example : (run (init Witness.clashCfg) (Witness.clashPrefix ++ Witness.clashRest.take 7)).pc = .evalStop ∧
+    (run (init Witness.clashCfg) (Witness.clashPrefix ++ Witness.clashRest.take 7)).status.numFailed = 1 ∧
+    (run (init Witness.clashCfg) (Witness.clashPrefix ++ Witness.clashRest.take 9)).pc = .loopStart := by
+  decide +kernel
+
+/-- `abort_names_failed`: the same answers with `max_failures = 0`: the loop is left at the next
+`while` test, `_handle_failure` shows the logs of trial 0 and `run()` raises "Trial - 0 failed" -/
+example :
+    let c : Cfg := { Witness.clashCfg with maxFailures := 0 }
+    let as : List Ans := Witness.clashPrefix ++ Witness.clashRest.take 9 ++
+      [.ret, .ids [0], Witness.τ, .status .failed, Witness.τ, Witness.τ]
+    (run (init c) as).pc = .finMark ∧
+    pending (run (init c) (as ++ [Witness.τ])) = .stdout 0 ∧
+    (run (init c) (as ++ [Witness.τ, .ret, .ret])).err = some (.failed 0) ∧
+    (run (init c) (as ++ [Witness.τ, .ret, .ret])).pc = .done := by
+  decide +kernel
 
 end SyneTune.C13Loop
